@@ -72,6 +72,33 @@ func H_C13_CorreOT() {
 	vsym.Reach("correot-checked")
 }
 
+// H_C13_CorreShape: a receiver message in which ANY one of the 128 columns has the wrong length (shorter or longer than the
+// batch) is refused by CorreOTSend with an error, never with a panic; the well-formed message is accepted.
+func H_C13_CorreShape() {
+	nb := 2
+	var send CorreOTSendSetup
+	for i := range send._Delta {
+		send._Delta[i] = 0xa5
+	}
+	var msg CorreOTReceiveMessage
+	for i := range msg.U {
+		msg.U[i] = make([]byte, nb)
+	}
+	_, err := CorreOTSend(hash.New(), &send, 8*nb, &msg)
+	vsym.Assert(err == nil, "well-formed message accepted")
+	k := vsym.Choose("column", params.OTParam)
+	if vsym.Choose("longer", 2) == 1 {
+		msg.U[k] = make([]byte, nb+1)
+	} else {
+		msg.U[k] = make([]byte, nb-1)
+	}
+	var err2 error
+	panicked := vsym.ExpectPanic(func() { _, err2 = CorreOTSend(hash.New(), &send, 8*nb, &msg) })
+	vsym.Assert(!panicked, "a column of the wrong length never crashes the sender")
+	vsym.Assert(panicked || err2 != nil, "a column of the wrong length is refused")
+	vsym.Reach("correshape-checked")
+}
+
 // H_C13_FieldOps: eq is equality and shl1 is a one-bit left shift of the 256-bit little-endian value.
 func H_C13_FieldOps() {
 	var a, b fieldElement
